@@ -59,13 +59,14 @@ func eqMS(a, b map[string]int) bool { return subMS(a, b) && subMS(b, a) }
 func checkSend(x *model.Exec, tm *thrModel, s *bgen.SendStep) (string, bool, []string) {
 	script := bgen.ScriptFor(x, s.Script)
 	lin := x.NewSend(script)
+	lin.ErrKind = bgen.ErrKindsFor(x, s.ErrKinds)
 	exp := x.Expect(s.ET, lin)
 	x.W.Reset()
 	plan := sched.Plan{Actions: s.Actions, CancelHit: -1}
 	if s.Ctx == 2 {
 		plan.CancelPoint, plan.CancelOcc = s.CancelPoint, s.CancelOcc
 	}
-	ctx, cancel, ctl := sched.With(context.Background(), plan)
+	ctx, cancel, ctl := sched.WithKind(context.Background(), plan, s.CtxKind)
 	defer cancel()
 	if s.Ctx == 1 {
 		cancel()
@@ -125,7 +126,7 @@ func checkSend(x *model.Exec, tm *thrModel, s *bgen.SendStep) (string, bool, []s
 	}
 	for w, n := range gotW {
 		if n > obsErrs[w] {
-			return fmt.Sprintf("Warnings contains %q which no node returned during this Send (or more often than returned)", w), false, nil
+			return fmt.Sprintf("Warnings contains an error (%T) which no node returned during this Send, or more often than it was returned", w), false, nil
 		}
 	}
 	// complete-sinks = exactly the sink entries of complete
@@ -161,7 +162,7 @@ func checkSend(x *model.Exec, tm *thrModel, s *bgen.SendStep) (string, bool, []s
 		}
 		for w, n := range wantW {
 			if gotW[w] != n {
-				return fmt.Sprintf("live context: warning %q expected %d time(s), got %d", w, n, gotW[w]), false, nil
+				return fmt.Sprintf("live context: a warning of type %T returned by a node is reported %d time(s), expected %d", w, gotW[w], n), false, nil
 			}
 		}
 	} else {
@@ -184,8 +185,8 @@ func checkSend(x *model.Exec, tm *thrModel, s *bgen.SendStep) (string, bool, []s
 		classes = append(classes, "send_error")
 		certainlyDone := s.Ctx == 1 || (cancelledAtReturn != "" && cancelledAtReturn != "range.exit" && ctxErrAtReturn != nil)
 		if certainlyDone {
-			if !errors.Is(err, context.Canceled) {
-				return fmt.Sprintf("context was done before Send returned but the error does not wrap it: %v", err), false, nil
+			if !errors.Is(err, context.Canceled) || !errors.Is(err, ctx.Err()) {
+				return fmt.Sprintf("context was done before Send returned but the error does not wrap ctx.Err() (context flavour %d): %v", s.CtxKind, err), false, nil
 			}
 			classes = append(classes, "error_wraps_ctx")
 		} else if s.Ctx != 0 {
